@@ -46,6 +46,7 @@ size_t vf_ptrdiff(const void * a, const void * base);
 bool vf_same_object(const void * a, const void * b);
 
 size_t vf_heap_live();
+size_t vf_cuda_live();      // live allocations of the CUDA shim (harness/cuda_shim)
 
 // probe backend bookkeeping
 void vf_probe_note(uint64_t n, uint64_t c0, uint64_t c1, uint64_t c2, uint64_t c3, uint64_t c4);
